@@ -3,12 +3,12 @@
 
     L <mode> <e1> <e2> …      mode 1 = ScanIgnored, 0 = skip ignored tokens; e_i = source elements in decimal
                               (code point, or 1114112 + b for an invalid byte b)
-      → <model tokens>|<model errors>|<ok|err>|<spec tokens>
+      → <model tokens>|<model errors>|<ok|err>|<spec tokens>|<ok|err>|<loose spec tokens>
         token  := kind:off:len:line:col:v1.v2.…     (kind = token.Token value; v = decoded string value,
                                                       only for STRING_VALUE), tokens joined by ","
         error  := line:col, joined by ","
         spec   := verdict of the reference lexer (`Spec.lexAll`) and its tokens (for `err`: the tokens before
-                  the first lexical error)
+                  the first lexical error); then the same for `Spec.lexAllLoose` (the other reading of D1–D3)
     B <e1> <e2> …             → <Model.blockStringValue>|<Spec.blockStringValue>   (values joined by ".")
     anything else             → bad-op
 -/
@@ -41,7 +41,10 @@ def handle (line : String) : String :=
       let (verdict, sts) := match Spec.lexAll m src with
         | .ok ts => ("ok", ts)
         | .error ts => ("err", ts)
-      s!"{toksStr ts}|{errsStr es}|{verdict}|{toksStr sts}"
+      let (verdictL, stsL) := match Spec.lexAllLoose m src with
+        | .ok ts => ("ok", ts)
+        | .error ts => ("err", ts)
+      s!"{toksStr ts}|{errsStr es}|{verdict}|{toksStr sts}|{verdictL}|{toksStr stsL}"
   | "B" :: ws =>
     match parseNats ws with
     | none => "bad-op"
